@@ -165,7 +165,8 @@ class _Rng:
 
 
 def _readings(n, tag="x"):
-    ts = [RSym(sp.Symbol("t%d" % k, real=True)) for k in range(n)]
+    from pvx.sym import increasing_stamps
+    ts = [RSym(x) for x in increasing_stamps(n)]
     data = [[RSym(sp.Symbol("%s%d_%d" % (tag, k, a), real=True)) for a in range(3)] for k in range(n)]
     return pd.DataFrame(data, index=pd.Index(ts, dtype=object), columns=["gyro_x", "gyro_y", "gyro_z"], dtype=object)
 
@@ -443,7 +444,8 @@ def _apply_imu(ctx, py):
     IS = py.inertial_sensor
     with rdomain(py, extra=[(IS, dict(check_random_state=lambda r: r if isinstance(r, _Rng) else _Rng()))]):
         n = 3
-        ts = [RSym(sp.Symbol("t%d" % k, real=True)) for k in range(n)]
+        from pvx.sym import increasing_stamps
+        ts = [RSym(x) for x in increasing_stamps(n)]
         cols = ["gyro_x", "gyro_y", "gyro_z", "accel_x", "accel_y", "accel_z"]
         imu = pd.DataFrame([[RSym(sp.Symbol("%s_%d" % (c, k), real=True)) for c in cols] for k in range(n)], index=pd.Index(ts, dtype=object), columns=cols, dtype=object)
         out = IS.apply_imu_parameters(imu, "increment")
